@@ -469,6 +469,12 @@ var natives = map[string]extFn{
 	"time.Now":   func(e *Engine, _ *frame, fn *ssa.Function, a []value) value { return zero(fn.Signature.Results().At(0).Type()) },
 	"time.Since": func(e *Engine, _ *frame, fn *ssa.Function, a []value) value { return uint64(0) },
 	"(time.Duration).Milliseconds": func(e *Engine, _ *frame, fn *ssa.Function, a []value) value { return uint64(0) },
+	"(*sync.WaitGroup).Add": func(e *Engine, _ *frame, _ *ssa.Function, a []value) value {
+		e.wgAdd(a[0].(*value), int(sext(a[1].(uint64), 64)))
+		return nil
+	},
+	"(*sync.WaitGroup).Done": func(e *Engine, _ *frame, _ *ssa.Function, a []value) value { e.wgAdd(a[0].(*value), -1); return nil },
+	"(*sync.WaitGroup).Wait": func(e *Engine, _ *frame, _ *ssa.Function, a []value) value { e.wgWait(a[0].(*value)); return nil },
 	"(*sync.Mutex).Lock": func(e *Engine, _ *frame, _ *ssa.Function, a []value) value { e.raceLock(a[0].(*value)); return nil },
 	"(*sync.Mutex).Unlock": func(e *Engine, _ *frame, _ *ssa.Function, a []value) value { e.raceUnlock(a[0].(*value)); return nil },
 	"(*sync.Mutex).TryLock": func(e *Engine, _ *frame, _ *ssa.Function, a []value) value {
